@@ -184,6 +184,17 @@ Definition skip_dead_rollback (t : cst) : cst :=
 Definition crash_task (t : cst) : cst :=
   CSt (k_cfg t) None None false (k_ghost t) (k_ghost t) [] 0.
 
+(* several task ids may stand for ONE (src, ig) pair: the same task restarted
+   with another batch size / concurrency after a crash.  They share the ghost:
+   whatever one of them commits is the committed ghost of all of them. *)
+Definition same_pair (a b : cst) : bool :=
+  (t_src (k_cfg a) =? t_src (k_cfg b)) && (t_ig (k_cfg a) =? t_ig (k_cfg b))
+  && negb (t_id (k_cfg a) =? t_id (k_cfg b)).
+Definition sync_ghost (t' : cst) (ts : list cst) : list cst :=
+  map (fun t => if same_pair t' t
+                then CSt (k_cfg t) (k_prog t) (k_cs t) (k_dead t) (k_ghost t') (k_ghost t') (k_last t) (k_lh t)
+                else t) ts.
+
 Definition do_event (idx : nat) (d : db) (ts : list cst) (e : event) : verdict * db * list cst :=
   match e with
   | EStart tid =>
@@ -199,7 +210,7 @@ Definition do_event (idx : nat) (d : db) (ts : list cst) (e : event) : verdict *
   | EOp tid o r =>
       match find_task tid ts with
       | None => (VBad idx 1, d, ts)
-      | Some t => let '(v, d', t') := do_op idx d t o r in (v, d', put_task t' ts)
+      | Some t => let '(v, d', t') := do_op idx d t o r in (v, d', sync_ghost t' (put_task t' ts))
       end
   | EEnd tid out =>
       match find_task tid ts with
